@@ -397,6 +397,8 @@ def selftest():
             ("RETURN names a register nothing writes", "reg-unwritten:RETURN", mut(lambda r: (
                 r.update(nreg=r["nreg"] + 3),
                 r["hi"].__setitem__(rpc, 33 * 1024 + (r["nreg"] - 1) * 4 + r["hi"][rpc] % 4)))),
+            ("the JMP behind a TEST overwritten by CLOSE", "test:TEST:not-followed-by-JMP", mut(lambda r: (
+                r["hi"].__setitem__(jpc, 38 * 1024), r["lo"].__setitem__(jpc, 0)))),
             ("more locals in scope than registers", "locals:more-live-locals", mut(lambda r: (
                 r["ls"].extend([0] * (r["nreg"] + 1)), r["le"].extend([len(r["hi"])] * (r["nreg"] + 1)))))]
     for i, (_, _, r) in enumerate(recs):
